@@ -503,3 +503,140 @@ def hq1(F, R):
             got = sorted({int_const(rv) if is_int(rv) else None for rv, _ in outs}, key=str)
             want = int(not (d and f))
             R.require(got == [want], fn, "dirs_empty=%s/files_empty=%s" % (d, f), "has_open_handles() = %s when open_dirs.is_empty()=%s and open_files.is_empty()=%s; must be %s" % (got, d, f, bool(want)), fn.loc(0), okdetail="-> %s" % bool(want))
+
+
+# ---------------------------------------------------------------------------------------
+# CD3: 8.3 name parser decision table (per-character step of the parsing loop)
+
+FORBIDDEN_SFN = set(range(0x20)) | {ord(c) for c in '"*+,/:;<=>?[\\]| '}
+FORBIDDEN_VOL = set(range(0x20)) | {ord(c) for c in '"*+,/:;<=>?[\\]|.'}
+
+
+def _sfn_step(ch, idx, seen_dot):
+    """specification of one parser step -> ('err', kind) | ('ok', idx', seen_dot', store_pos|None, byte|None)"""
+    if ch in FORBIDDEN_SFN or ch > 0xFF:
+        return ("err", "InvalidCharacter")
+    if ch == ord("."):
+        if 1 <= idx <= 8 and not seen_dot:
+            return ("ok", 8, True, None, None)
+        return ("err", "MisplacedPeriod")
+    b = ch - 32 if ord("a") <= ch <= ord("z") else ch
+    if seen_dot:
+        if 8 <= idx < 11:
+            return ("ok", idx + 1, True, idx, b)
+        return ("err", "NameTooLong")
+    if idx < 8:
+        return ("ok", idx + 1, False, idx, b)
+    return ("err", "NameTooLong")
+
+
+def _vol_step(ch, idx, seen_dot):
+    if ch in FORBIDDEN_VOL or ch > 0xFF:
+        return ("err", "InvalidCharacter")
+    if idx < 11:
+        return ("ok", idx + 1, seen_dot, idx, ch)
+    return ("err", "NameTooLong")
+
+
+def _parser_table(F, R, fn, step, has_dot, tier_full):
+    from .rules_crc import _loop_parts
+    from .stdmodel import some
+    # loop driven by str::chars
+    nxt = None
+    for b, t in fn.calls():
+        if (callee_of(t) or "").endswith("Iterator::next") and "Chars" in t.get("callee_full", ""):
+            nxt = (b, t)
+    chars = [(b, t) for b, t in fn.calls() if (callee_of(t) or "").endswith("::chars")]
+    if nxt is None or not chars:
+        R.bad(fn, "chars-loop", "the parser must iterate `name.chars()` (Unicode scalar values): no Chars iterator found - iterating bytes would store UTF-8 code units instead of ISO-8859-1 code points and never reject characters above U+00FF", fn.loc(0))
+        return
+    nb, nt = nxt
+    sw = nt["target"]
+    dest = nt["dest"]["l"]
+    names = {l["name"]: i for i, l in enumerate(fn.locals) if l["name"]}
+    need = ["idx", "sfn"] + (["seen_dot"] if has_dot else [])
+    for n in need:
+        if n not in names:
+            R.bad(fn, "locals", "parser state variable `%s` not found" % n, kind="anchor-missing")
+            return
+    adt = "filesystem::filename::ShortFileName" if has_dot else "fat::volume::VolumeName"
+    fe = F.variants("filesystem::filename::FilenameError")
+    reps = list(range(0, 0x101)) + [0x141, 0x4E2D, 0x1F600, 0x10FFFF]
+    idxs = range(0, 12) if tier_full else (0, 1, 7, 8, 9, 10, 11)
+    n = 0
+    bad = []
+    for ch in reps:
+        for idx in idxs:
+            for sd in ((0, 1) if has_dot else (0,)):
+                I = Interp(F, mode="bv")
+                st = State()
+                contents = arr([sym_int(I.vars, "c%d" % k, 8) for k in range(11)])
+                sfn = agg("struct", adt, 0, [contents])
+                preset = {dest: some(const(ch, 32)), names["idx"]: const(idx, 64), names["sfn"]: sfn, 1: TOP}
+                if has_dot:
+                    preset[names["seen_dot"]] = const(sd, 1)
+                try:
+                    outs = I.run(fn, [], st, 0, start=sw, preset=preset, stop=(nb,))
+                except Undecided as e:
+                    raise RuleUndecided("%s: %s" % (fn.npath, e))
+                want = step(ch, idx, bool(sd))
+                got = []
+                for rv, s2 in outs:
+                    if isinstance(rv, tuple) and rv and rv[0] == "stop":
+                        fr = s2.frames[rv[2]]
+                        ni = int_const(fr[names["idx"]])
+                        nsd = bool(int_const(fr[names["seen_dot"]])) if has_dot else False
+                        nc = fr[names["sfn"]][4][0][1]
+                        changed = [(k, int_const(nc[k])) for k in range(11) if nc[k] != contents[1][k]]
+                        if len(changed) == 0:
+                            got.append(("ok", ni, nsd, None, None))
+                        elif len(changed) == 1:
+                            got.append(("ok", ni, nsd, changed[0][0], changed[0][1]))
+                        else:
+                            got.append(("ok", ni, nsd, "multi", None))
+                    elif is_agg(rv) and rv[3] == 1:
+                        e = rv[4][0]
+                        got.append(("err", fe[e[3]] if is_agg(e) and e[3] is not None else "?"))
+                    else:
+                        got.append(("ret", str(rv)[:40]))
+                panics = [it["detail"] for k, it in I.obl.items.items() if it["bad"]]
+                n += 1
+                if got != [want] or panics:
+                    bad.append("char U+%04X at idx=%d seen_dot=%s: parser does %s, specification says %s%s" % (ch, idx, bool(sd), got, want, (" (may panic: %s)" % panics[0]) if panics else ""))
+    short = fn.npath.split("::")[-2]
+    if bad:
+        R.bad(fn, short + ":step-table", "%d of %d (character class, position, dot state) rows differ from the 8.3 rules; first: %s" % (len(bad), n, bad[0]), fn.loc(nb), trace=bad[:8])
+    else:
+        R.ok(fn, short + ":step-table", "%d rows (all Latin-1 code points + 4 beyond, positions %s, dot state) agree with the 8.3 rules" % (n, list(idxs)), fn.loc(nb))
+    return n
+
+
+@rule("CD3", ["C18"], floor=4,
+      doc="8.3 name parser: the per-character step of create_from_str (decided for every Latin-1 code point and representatives above U+00FF, every position 0..11 and dot state, other state symbolic) equals the FAT rules: controls, the 15 forbidden punctuation marks and space rejected, > U+00FF rejected, one '.' at position 1..=8 starts the extension, ASCII upper-casing, base < 8, extension 8..11; initial fill is spaces; '.', '..' and '' are the directory names. Same for VolumeName (no dot, space allowed, 11 chars, no case change)")
+def cd3(F, R):
+    import os
+    full = os.environ.get("VERIF_TIER", "quick") == "thorough" or getattr(cd3, "_full", False)
+    fn = F.fn("filesystem::filename::ShortFileName::create_from_str")
+    _parser_table(F, R, fn, _sfn_step, True, full)
+    fv = F.fn("fat::volume::VolumeName::create_from_str")
+    _parser_table(F, R, fv, _vol_step, False, full)
+    # initial fill and special names
+    for f, adt in ((fn, "ShortFileName"), (fv, "VolumeName")):
+        init = [f.term_of_rvalue(s["rv"], b) for b, i, s in f.stmts() if s["k"] == "Assign" and s["rv"]["k"] == "Aggregate" and s["rv"].get("adt", "").endswith(adt)]
+        ok = any(tstr(v).replace(" ", "") in ("%s{[0x20;11]}" % adt,) or ("[0x20" in tstr(v)) for v in init)
+        R.require(ok, f, adt + ":space-fill", "the name must start as 11 spaces (padding); got %s" % [tstr(v) for v in init], f.loc(0))
+    for nm, want in (("this_dir", b".          "), ("parent_dir", b"..         ")):
+        f = F.fn("filesystem::filename::ShortFileName::" + nm)
+        I = Interp(F, mode="bv")
+        outs = I.run(f, [], State(), 0)
+        got = None
+        if len(outs) == 1 and is_agg(outs[0][0]):
+            c = outs[0][0][4][0]
+            if is_ptr(c):
+                c = I.read_loc(outs[0][1], (c[1], c[2], c[3], None))
+            if c[0] == "arr":
+                got = bytes(int_const(x) for x in c[1])
+        R.require(got == want, f, nm, "%s() must be %r, got %r" % (nm, want, got), f.loc(0))
+    # special-casing of "", "." and ".." before the loop
+    s_ = " ".join(tstr(fn.call_term(t, b)) for b, t in fn.calls())
+    R.require("this_dir" in s_ and "parent_dir" in s_ and "is_empty" in s_, fn, "special-names", "create_from_str must map '' and '.' to this_dir() and '..' to parent_dir()", fn.loc(0))
